@@ -750,7 +750,7 @@ func TestVerif_C17_LimitListener(t *testing.T) {
 	defer r.Finish()
 	r.Rule("scripts over a real LimitListener wrapping a counting in-memory listener: 64 clients dial/hold/close concurrently (2-4+ connections each, random holds, handler closes twice in 1/4 of the connections, injected temporary Accept errors) while a controller runs a cap-change script of kind steady | grow | shrink-below-usage | shrink-then-grow back-to-back | shrink-grow sequential | repeated-identical | grow-then-shrink b2b | shrink-shrink b2b | sequential mix | random mix (caps 1..20, completion observed through SetMaxCount's done channel; grows partly through SetMaxConnection); oracle: open connections <= cap in force at every accept, no connection closed before its client closed, exact free-capacity audit and cap+2 probe at the final quiescent point; distinct = (kind, cap0, #steps, max open, final cap)")
 	r.Assume("caps >= 1 (HTTPServer spec minimum); cap in force while changes are outstanding = max of the caps involved; 'applied' = done channel of Semaphore.SetMaxCount closed for every outstanding change")
-	n := r.N(200, 6000)
+	n := r.N(600, 20000)
 	for i := 0; i < n; i++ {
 		if !r.Mine(i) {
 			continue
